@@ -7,7 +7,9 @@ from common import tlc, tlc_ok, tlc_must_fail, build_driver, run_driver, judge, 
 def run(prop, tier, seed, work, ev):
     drv = build_driver()
     tlc_ok("mc/MC_Eval.tla", "MC_Eval_laws.cfg" if tier == "quick" else "MC_Eval_laws_thorough.cfg", work, ev=ev,
-           label="compositional laws as theorems of Eval on trees x documents " + tier, timeout=3000)
+           label="compositional laws as theorems of Eval on trees x documents " + tier, timeout=6000)
+    if tier == "thorough":
+        tlc_ok("mc/MC_Eval.tla", "MC_Eval_laws.cfg", work, ev=ev, label="compositional laws as theorems of Eval on trees x documents of depth 1 over all atoms", timeout=3000)
     tlc_must_fail("mc/MC_Eval.tla", "MC_Eval_neg.cfg", work, invariant="Inv_InterpIsEval", ev=ev)
     ev.exhaustive = True
     ev.rule = ("cases: 23 left parts x 16 right parts (10 projection continuations, 8 predicates) x 9 documents under the laws pipe, and, or, "
@@ -26,7 +28,9 @@ def run(prop, tier, seed, work, ev):
     # composites whose parts interact only if evaluation is NOT compositional (a `!` over a parenthesised group, an inner projection
     # over a per-element temporary): judged against Eval, which is compositional by construction (MC_Eval_laws)
     import eng_eval
-    rej = rej + eng_eval.pool_families(["bool", "inflate", "hash"], work, ev, drv)
+    rej = rej + eng_eval.pool_families(["bool", "inflate", "hash", "foldlit", "keyorder", "mapnull", "msidx", "absent", "notgroup", "nested"], work, ev, drv)
+    rej = rej + eng_eval.pools_matching(r"\||&&|\[\*\]|\[\]|\[\?|\.\*|\.\{|\.\[|![^=]", "a projection, pipe, boolean operator or multi-select", work, ev, drv,
+                                        skip=("bool", "inflate", "hash", "foldlit", "keyorder", "mapnull", "msidx", "absent", "notgroup", "nested", "compose"))
     c3 = work.path("preds.cases")
     eng_eval.gen(work, "preds", c3)
     rej = rej + eng_eval.run_and_judge("filter predicates that are chains themselves", c3, work, ev, drv, docs=c3 + ".docs", nsamples=1)
